@@ -10,6 +10,8 @@ import FeatModel.Model.Solver.Chebyshev
 import FeatModel.Lemmas.C07Session
 import FeatModel.Lemmas.C07Refine
 import FeatModel.Lemmas.C07CG
+import FeatModel.Lemmas.C07Rgcr
+import FeatModel.Model.Solver.RGCR
 import FeatModel.Lemmas.C07Vec
 /-!
 # C07 — iterative solvers report their status truthfully
@@ -570,6 +572,14 @@ theorem C07.session_independent (k : Kind) (S : Sys V α) (c : Config α) (omega
     runSession k S c omega prev l = independentSession k S c omega st l :=
   runSession_indep k S c omega st l prev
 
+/-- the same with `done_numeric()/init_numeric()` and full `done()/init()` (done_symbolic + init_symbolic) calls
+    anywhere between the solves (the step list the driver executes against the real object, which really performs
+    these calls): the outcome of every solve equals that of a brand-new object, for every solver kind of the model -/
+theorem C07.session_independent_with_reinit (k : Kind) (S : Sys V α) (c : Config α) (omega : α)
+    (prev st : State α) (l : List (SessionStep V)) :
+    runSteps k S c omega prev l = independentSession k S c omega st (solvesOf l) :=
+  runSteps_indep k S c omega st l prev
+
 /-- BiCGStab sessions in particular (full strength since the fix of finding c07-edge:F6: no hypothesis about the
     preconditioner) -/
 theorem C07.bicg_session_independent (S : Sys V α) (c : Config α) (omega : α) (prev st : State α)
@@ -645,6 +655,26 @@ theorem C07.cheb_correct_sound (S : Sys V α) (c : Config α) (prev : State α) 
     (res : Result V α) (h : chebIntern S c prev minEv maxEv b x0 (resid S b x0) = some res) :
     SolveSound c x0 (S.nrm (resid S b x0)) (S.nrm (resid S b res.x)) res :=
   solveSound_of S c b x0 _ res (chebIntern_spec S c prev minEv maxEv b x0 _ res h)
+
+/-- the systems the driver executes satisfy the linearity laws RGCR needs (`F A` commutes with `axpy` and `scale`) -/
+theorem C07.ratSys_lawfulRgcr {n : Nat} (A : RMat n) (mask : Vector Bool n) (pre : Option (RMat n × Nat)) :
+    LawfulRgcr (ratSys A mask pre) :=
+  FeatModel.Solver.ratSys_lawfulRgcr A mask pre
+
+/-- RGCR (recycling GCR), one `correct()` on an object whose recycled direction pairs satisfy the invariant
+    `q_j = F A p_j` (`DirsOK`): (1) the pairs the solve leaves behind (new pairs orthogonalised and normalised, then
+    cut to a quarter) satisfy the invariant again, and (2) the recursively updated defect is the true filtered residual
+    of the returned iterate, so the status is sound (`SolveSound`, spelled out in `C07.pcg_correct_sound`).
+    The invariant is exactly what a `done_symbolic()` that releases only one of the two lists, or new matrix values
+    behind `done_numeric()/init_numeric()` (open finding c07-edge:F9), destroy. -/
+theorem C07.rgcr_solve_sound (S : Sys V α) (hl : LawfulRgcr S) (c : Config α) (prev : State α)
+    (dirs dirs' : List (V × V)) (x0 b : V) (res : Result V α) (hok : DirsOK S dirs)
+    (h : rgcrSolve S c prev dirs false x0 b = some (res, dirs')) :
+    DirsOK S dirs' ∧ SolveSound c x0 (S.nrm (resid S b x0)) (S.nrm (resid S b res.x)) res :=
+  rgcrSolve_spec S hl c prev dirs dirs' x0 b res hok h
+
+/-- a brand-new RGCR object, or one after `done_symbolic()` (both lists empty), satisfies the invariant -/
+theorem C07.rgcr_fresh_invariant (S : Sys V α) : DirsOK S [] := fun e he => by simp at he
 
 end sessions
 
